@@ -2213,6 +2213,12 @@ SDgetfillvalue(int32 sdsid, /* IN:  dataset ID */
         HGOTO_ERROR(DFE_CANTGETATTR, FAIL);
     }
 
+    /* the caller's buffer holds ONE value of the dataset's type: a "_FillValue" attribute of
+       another type or count (SDsetattr does not refuse one) is no fill value */
+    if ((*attr)->data == NULL || (*attr)->data->count != 1 || (*attr)->data->type != var->type) {
+        HGOTO_ERROR(DFE_BADATTR, FAIL);
+    }
+
     NC_copy_arrayvals((char *)val, (*attr)->data);
 
 done:
